@@ -61,13 +61,17 @@ int main(int argc, char ** argv)
 		int n = drv_split(line, tok, 4);
 		if (n == 3 && strcmp(tok[0], "readkeys") == 0) {
 			size_t flen; uint8_t * fb = drv_unhex(tok[1], &flen, 0);
-			FILE * f = fopen(path, "wb"); char * id = NULL, * sec = NULL; int rc;
+			/* result pointers start as junk (aws_readkeys.h: they are outputs); the file name is
+			 * passed in a block of its own that is overwritten and released after the call */
+			FILE * f = fopen(path, "wb"); char * id = (char *)(uintptr_t)0x5a5a5a5a5a5aULL, * sec = (char *)(uintptr_t)0x5a5a5a5a5a5aULL; int rc;
+			char * fn = __real_strdup(path);
 			fwrite(fb, 1, flen, f); fclose(f); __real_free(fb);
 			oracle = strcmp(tok[2], "-") ? tok[2] : NULL; opos = 0;
 			nblocks = 0; evlen = 0; evbuf[0] = 0; cur_id = &id; cur_secret = &sec;
 			active = 1;
-			rc = aws_readkeys(path, &id, &sec);
+			rc = aws_readkeys(fn, &id, &sec);
 			active = 0;
+			drv_scribble_str(fn); __real_free(fn);
 			if (rc == 0) {
 				printf("ok "); drv_puthex((uint8_t *)id, strlen(id)); printf(" "); drv_puthex((uint8_t *)sec, strlen(sec));
 				__real_free(id); __real_free(sec);
